@@ -12,6 +12,7 @@ CONSTANTS
     MaxQ = 1000
     InsertFirst = FALSE
     WithHold = TRUE
+    EmptyOn = 1
     Hist = TRUE
 CONSTRAINT Furthest
 INVARIANT TraceInv
